@@ -48,6 +48,7 @@ class Interp:
                     and isinstance(n.value, ast.Name) and n.value.id in self.FN:
                 self.FN.setdefault(n.targets[0].id, self.FN[n.value.id])
         self.used = {}      # name -> (file, hash) of every function body the facts were read from
+        self.engine = "duckdb"   # the engine whose `session._is_<engine>` tests are true (the others are false)
 
     # -- entry points ---------------------------------------------------------------------------------------
     def function(self, name, present=None, args=None):
@@ -106,7 +107,7 @@ class Interp:
     def _engine_test(self, t):
         """3-valued: True/False when the test is decided by the engine alone, None otherwise"""
         if isinstance(t, ast.Attribute) and t.attr.startswith(ENGINE_ATTR):
-            return t.attr == "_is_duckdb"
+            return t.attr == "_is_" + self.engine
         if isinstance(t, ast.BoolOp):
             vals = [self._engine_test(v) for v in t.values]
             if isinstance(t.op, ast.Or):
@@ -541,17 +542,28 @@ def generate(repo: str):
          f"array_sort without comparator is not a plain ArraySort(col): {t}")
 
     # ---- array_position -------------------------------------------------------------------------------------
-    t = I.function("array_position")
-    guard = False
-    if t[0] == "call" and t[1] == "when" and len(t[2]) == 2:
-        need(t[2][0][0] == "notnull" and is_param(t[2][0][1], "col"), f"array_position: guard is not `col IS NOT NULL`: {t[2][0]}")
-        guard, t = True, t[2][1]
-    need(t[0] == "call" and t[1] == "coalesce" and len(t[2]) == 2, f"array_position: not [when(col.isNotNull(),] coalesce(prim, default)[)]: {t}")
-    p = t[2][0]
-    need(p[0] == "anon" and p[1] == "ARRAY_POSITION" and len(p[2]) == 2 and is_param(p[2][0], "col") and is_param(p[2][1], "value"),
-         f"array_position: primitive is not ARRAY_POSITION(col, value): {p}")
-    k = int_const(t[2][1])
-    fact("pos", "pos_cfg", f"mkPos {'None' if k is None else f'(Some ({k}))'} {'true' if guard else 'false'}", ["array_position"])
+    def pos_shape(engine):
+        I.engine = engine
+        try:
+            t = I.function("array_position")
+        finally:
+            I.engine = "duckdb"
+        guard = False
+        if t[0] == "call" and t[1] == "when" and len(t[2]) == 2:
+            need(t[2][0][0] == "notnull" and is_param(t[2][0][1], "col"), f"array_position[{engine}]: guard is not `col IS NOT NULL`: {t[2][0]}")
+            guard, t = True, t[2][1]
+        need(t[0] == "call" and t[1] == "coalesce" and len(t[2]) == 2,
+             f"array_position[{engine}]: not [when(col.isNotNull(),] coalesce(prim, default)[)]: {t}")
+        p = t[2][0]
+        need(p[0] == "anon" and p[1] == "ARRAY_POSITION" and len(p[2]) == 2 and is_param(p[2][0], "col") and is_param(p[2][1], "value"),
+             f"array_position[{engine}]: primitive is not ARRAY_POSITION(col, value): {p}")
+        k = int_const(t[2][1])
+        return f"mkPos {'None' if k is None else f'(Some ({k}))'} {'true' if guard else 'false'}"
+    fact("pos", "pos_cfg", pos_shape("duckdb"), ["array_position"])
+    # the same call rendered for a Spark / Databricks session (their ARRAY_POSITION is NULL for a NULL array, so the COALESCE
+    # needs the same guard there): the thorough tier runs these sessions live, the quick tier pins the shape
+    fact("pos_spark", "pos_cfg", pos_shape("spark"), ["array_position"], "shape under session._is_spark")
+    fact("pos_databricks", "pos_cfg", pos_shape("databricks"), ["array_position"], "shape under session._is_databricks")
 
     # ---- factorial --------------------------------------------------------------------------------------------
     t = I.function("factorial")
